@@ -297,7 +297,11 @@ func execCase(c Case) (res result) {
 		if err != nil {
 			res.errText = "event AND error returned: " + err.Error()
 		}
-		res.outLit = pr.lit(reflect.ValueOf(out.Payload))
+		if c.PK == "val" {
+			res.outLit = safeLit(pr, reflect.ValueOf(out.Payload))
+		} else {
+			res.outLit = "(VOther 0%Z)" // a nil or rotation payload came back in a new event: only the outcome class matters
+		}
 		sameType := reflect.TypeOf(out.Payload) == reflect.TypeOf(pv)
 		meta := out.Type == e.Type && out.CreatedAt.Equal(e.CreatedAt) && reflect.DeepEqual(out.Formatted, e.Formatted)
 		var found []int
@@ -320,6 +324,16 @@ func execCase(c Case) (res result) {
 		hc.N(c.ID), hc.N(res.class), o0, o1, o2, hc.B(c.Cfg.Wrap != "absent"), hc.NList(c.Cfg.EncFail), hc.B(c.Cfg.Wrap == "failing"), payloadLit, hc.B(unchanged), obs)
 	res.nontriv = res.obs == "out" && res.outLit != res.inLit
 	return res
+}
+
+// projection of a value the harness did not build (an unexpected output): a panic of the projector is an opaque value
+func safeLit(pr *projector, rv reflect.Value) (lit string) {
+	defer func() {
+		if r := recover(); r != nil {
+			lit = "(VOther (-1)%Z)"
+		}
+	}()
+	return pr.lit(rv)
 }
 
 type emitter struct {
